@@ -5,6 +5,7 @@
   visitors, `Content` / `deAny` / `fromC` = serde's private buffer).
 -/
 import Minicbor.Lemmas.SerdeStruct
+import Minicbor.Lemmas.SerdeAny
 
 namespace Minicbor.C17
 open Minicbor.Serde Minicbor.Dec
@@ -913,5 +914,75 @@ theorem unknown_struct_fields_ignored (names : List Bytes) (vals : List SVal) (t
   rw [hn] at this
   simp only [de]
   rw [Dec.bind_ok _ _ _ _ _ this]; rfl
+
+
+/-! ## 6. `deserialize_any` -/
+
+/-- **`deserialize_any` consumes exactly one item.**  For every well-formed item the bridge
+    accepts there (`anyOk`: everything but tags, `undefined`, other simple values and integers
+    below `-2^63`), in *any* framing — head widths, definite or indefinite arrays and maps,
+    chunked strings, half-precision floats — followed by arbitrary bytes, serde's `Content`
+    buffer receives the value of the item (`cOfW`) and the decoder stops exactly after it. -/
+theorem de_any_consumes_one_item (w : WItem) (hv : w.Valid) (hok : anyOk w = true) (rest : Bytes) :
+    deAny (encW w ++ rest) = .ok (cOfW w) rest := deAny_encW w hv hok rest
+
+mutual
+theorem toW_anyOk : (v : SVal) → vok v = true → anyOk (toW v) = true
+  | .bool b, _ => by cases b <;> rfl
+  | .int k v, h => by
+    simp only [vok, Bool.and_eq_true, decide_eq_true_eq] at h
+    have hb := range_bounds k
+    unfold toW intW
+    split
+    · rfl
+    · have : ¬ (9223372036854775808 ≤ (-1 - v).toNat) := by omega
+      simp [anyOk, this]
+  | .f32 _, _ => rfl
+  | .f64 _, _ => rfl
+  | .char _, _ => rfl
+  | .str _, _ => rfl
+  | .bytes _, _ => rfl
+  | .none, _ => rfl
+  | .some v, h => by simp only [vok] at h; simp only [toW]; exact toW_anyOk v h
+  | .unit, _ => rfl
+  | .unitStruct, _ => rfl
+  | .unitVariant _, _ => rfl
+  | .newtypeStruct v, h => by simp only [vok] at h; simp only [toW]; exact toW_anyOk v h
+  | .newtypeVariant n v, h => by
+    simp only [vok, Bool.and_eq_true] at h
+    simp [toW, textW, anyOk, anyOks, toW_anyOk v h.2]
+  | .seq known xs, h => by
+    simp only [vok, Bool.and_eq_true] at h
+    cases known <;> simp [toW, anyOk, toWs_anyOk xs h.2]
+  | .tuple xs, h => by
+    simp only [vok, Bool.and_eq_true] at h
+    simp [toW, anyOk, toWs_anyOk xs h.2]
+  | .tupleStruct xs, h => by
+    simp only [vok, Bool.and_eq_true] at h
+    simp [toW, anyOk, toWs_anyOk xs h.2]
+  | .tupleVariant n xs, h => by
+    simp only [vok, Bool.and_eq_true] at h
+    simp [toW, textW, anyOk, anyOks, toWs_anyOk xs h.2]
+  | .map known kvs, h => by
+    simp only [vok, Bool.and_eq_true] at h
+    cases known <;> simp [toW, anyOk, toWs_anyOk kvs h.2]
+  | .struct kvs, h => by
+    simp only [vok, Bool.and_eq_true] at h
+    simp [toW, anyOk, toWs_anyOk kvs h.2]
+  | .structVariant n kvs, h => by
+    simp only [vok, Bool.and_eq_true] at h
+    simp [toW, textW, anyOk, anyOks, toWs_anyOk kvs h.2]
+theorem toWs_anyOk : (xs : List SVal) → oks xs = true → anyOks (toWs xs) = true
+  | [], _ => rfl
+  | x :: xs, h => by
+    simp only [oks, Bool.and_eq_true] at h
+    simp [toWs, anyOks, toW_anyOk x h.1, toWs_anyOk xs h.2]
+end
+
+/-- in particular everything `ser` writes is accepted by `deserialize_any`, whole. -/
+theorem de_any_on_ser (v : SVal) (h : vok v = true) (rest : Bytes) :
+    deAny (ser v ++ rest) = .ok (cOfW (toW v)) rest := by
+  rw [ser_eq_encW v h]
+  exact deAny_encW (toW v) (toW_valid v h) (toW_anyOk v h) rest
 
 end Minicbor.C17
